@@ -92,7 +92,7 @@ func valueRoots(v ssa.Value, through func(callee string) bool) []Root {
 					for _, e := range variadicElems(c.Common()) {
 						walk(e)
 					}
-				} else {
+				} else if !inlineReturns(c, x.Index, walk) {
 					out = append(out, Root{Kind: "call", V: c, Callee: name, Idx: x.Index})
 				}
 			} else {
@@ -107,7 +107,7 @@ func valueRoots(v ssa.Value, through func(callee string) bool) []Root {
 				for _, e := range variadicElems(x.Common()) {
 					walk(e)
 				}
-			} else {
+			} else if !inlineReturns(x, 0, walk) {
 				out = append(out, Root{Kind: "call", V: x, Callee: name, Idx: -1})
 			}
 		case *ssa.Field:
@@ -182,4 +182,64 @@ func (p *Prog) storesToField(f *types.Var) []*ssa.Store {
 		})
 	}
 	return out
+}
+
+// inlineReturns follows a call of a small module function (a getter or thin
+// helper: no parameters besides the receiver are allowed to matter, so only
+// functions whose returned values do not depend on parameters other than the
+// receiver are inlined) into its return values.
+func inlineReturns(c *ssa.Call, idx int, walk func(ssa.Value)) bool {
+	f := c.Common().StaticCallee()
+	if nil == f || !inModule(f) || nil == f.Blocks || len(f.Blocks) > 6 {
+		return false
+	}
+	var rets []ssa.Value
+	ok := true
+	eachInstr(f, func(i ssa.Instruction) {
+		ret, isRet := i.(*ssa.Return)
+		if !isRet {
+			return
+		}
+		if idx >= len(ret.Results) {
+			ok = false
+			return
+		}
+		rets = append(rets, ret.Results[idx])
+	})
+	if !ok || 0 == len(rets) {
+		return false
+	}
+	/* Only when the returned values do not depend on non-receiver parameters. */
+	for _, rv := range rets {
+		dep := false
+		seen := map[ssa.Value]bool{}
+		var chk func(v ssa.Value)
+		chk = func(v ssa.Value) {
+			if nil == v || seen[v] {
+				return
+			}
+			seen[v] = true
+			if pa, isP := v.(*ssa.Parameter); isP {
+				if nil == f.Signature.Recv() || pa != f.Params[0] {
+					dep = true
+				}
+				return
+			}
+			if in, isI := v.(ssa.Instruction); isI {
+				for _, op := range in.Operands(nil) {
+					if nil != *op {
+						chk(*op)
+					}
+				}
+			}
+		}
+		chk(rv)
+		if dep {
+			return false
+		}
+	}
+	for _, rv := range rets {
+		walk(rv)
+	}
+	return true
 }
